@@ -215,14 +215,32 @@ def seeded(g):
             ops.append(gen.note("textDocument/didChange", {
                 "textDocument": {"uri": frames.uri_encode(other, style)},
                 "contentChanges": [{"text": "x"}]}))
+    force_esc = set()
+    if rng.random() < 0.3:
+        # text that only an editor buffer can carry (never a file read with errors="replace"): lone
+        # surrogates, NUL, separators, non-BMP - in a documentation comment that hover and
+        # completion echo back
+        w = rng.choice(["\ud83d", "a\udc00b", "\udfff\ud800", "\x00", "\u2028\u2029", "\U0001F600\ud83d", "\x7f\x1b[0m",
+                        "\ufffe\uffff"])
+        sl = src.split("\n")
+        k = next(j for j, ln in enumerate(sl) if ln.strip().startswith("real ::"))
+        sl.insert(k, "  !> doc " + w + " end")
+        ops.append(gen.note("textDocument/didChange", {"textDocument": {"uri": u, "version": 2},
+                                                       "contentChanges": [{"text": "\n".join(sl)}]}))
+        force_esc.add(len(ops) - 1)
+        col = sl[k + 1].index("::") + 4
+        for meth in ("textDocument/hover", "textDocument/completion", "textDocument/hover"):
+            ops.append(gen.req(rid(), meth, {"textDocument": {"uri": u},
+                                             "position": {"line": k + 1, "character": col}}))
+        ops.append(gen.req(rid(), "textDocument/documentSymbol", {"textDocument": {"uri": u}}))
     ops.append(gen.req(rid(), "workspace/symbol", {"query": ""}))
     ops.append({"k": "obs", "what": "uri_roundtrip",
                 "paths": [path, f"{ROOT}/{weird_name(rng)}/{weird_name(rng)}.f90", f"{CANON}/o t/%41.f90"]})
     ops += [gen.req(rid(), "shutdown"), gen.note("exit")]
-    for o in ops:
+    for j, o in enumerate(ops):
         if o["k"] == "msg":
             o["hdr"] = rng.choice(frames.HDR_STYLES)
-            o["esc"] = rng.random() < 0.4
+            o["esc"] = rng.random() < 0.4 or j in force_esc
     r = rng.random()
     if r < 0.15:
         chunks = [1]
